@@ -480,9 +480,17 @@ func c10Programs(tier string, emit func(p pxProg)) {
 	if tier == "thorough" {
 		n = 4
 	}
-	pres := []string{"", "lw t3, 0(zero)"}
-	for _, pre := range pres {
+	// "saturated write path": line 0 warm, then stores to uncached lines keep the
+	// write units busy for a whole memory access while register results fill
+	// the result bus; the sequence under test arrives behind them
+	sat2 := "lw t3, 0(zero)\nadd t4, t3, t3\nsw t4, 1024(zero)\nsw t4, 2048(zero)\naddi a0, a0, 1\naddi a1, a1, 1\naddi a2, a2, 1\naddi a3, a3, 1"
+	sat4 := "lw t3, 0(zero)\nadd t4, t3, t3\nsw t4, 1024(zero)\nsw t4, 2048(zero)\nsw t4, 3072(zero)\nsw t4, 4096(zero)\naddi a0, a0, 1\naddi a1, a1, 1\naddi a2, a2, 1\naddi a3, a3, 1\naddi a4, a4, 1\naddi a5, a5, 1\naddi a6, a6, 1\naddi a7, a7, 1"
+	pres := []string{"", "lw t3, 0(zero)", sat2, sat4}
+	for pi, pre := range pres {
 		for k := 1; k <= n; k++ {
+			if pi >= 2 && k > n-1 {
+				continue // behind the saturating prefixes: one instruction less
+			}
 			seqs(len(c10Alpha), k, func(idx []int) {
 				var b []string
 				for _, i := range idx {
@@ -499,7 +507,7 @@ var c10Suite = &pxSuite{
 	Programs:   c10Programs,
 	Violates:   wrongResult,
 	Nontrivial: func(ref *refResult, p pxProg) bool { return hasConflict(ref) },
-	Rule:       "PX: every sequence of length <= 3 (quick) / <= 4 (thorough) over the 11-template alphabet {sw/sb/lw/lb to the same byte, word and line through two independent base registers s0 and s1 (both 0), a word on another line, addi on a data register, nop} x cache pre-state {cold, line 0 warm}, loaded registers stored to result slots; MVP-6.0..8 x parallelism 1..4 and MVP-4/5 (write-buffer path); oracle = loaded values and final memory equal the sequential reference; non-trivial = distinct programs in which two accesses, at least one a store, touch the same 64-byte line (measured on the reference address trace)",
+	Rule:       "PX: every sequence of length <= 3 (quick) / <= 4 (thorough) over the 11-template alphabet {sw/sb/lw/lb to the same byte, word and line through two independent base registers s0 and s1 (both 0), a word on another line, addi on a data register, nop} x pre-state {cold, line 0 warm, and (sequences one shorter) line 0 warm with the write path saturated by 2 resp. 4 stores to uncached lines followed by 4 resp. 8 independent register results}, loaded registers stored to result slots; MVP-6.0..8 x parallelism 1..4 and MVP-4/5 (write-buffer path); oracle = loaded values and final memory equal the sequential reference; non-trivial = distinct programs in which two accesses, at least one a store, touch the same 64-byte line (measured on the reference address trace)",
 }
 
 func hasConflict(ref *refResult) bool {
